@@ -55,7 +55,8 @@ def mutation_lines(kind, i):
         return [f"{90 + i};255;0;0;17;2.2\n"]
     if kind == "child":
         return ["1;255;0;0;17;2.2\n", f"1;{10 + i};0;0;6;late\n"]
-    return ["1;255;0;0;17;2.2\n", "1;0;0;0;6;temp\n", f"1;0;1;0;{16 + i};77\n"]   # a new value type on child 0
+    vt = [24, 25, 26, 27, 28, 47, 1, 4, 6, 8, 9, 10, 12, 13, 14, 17, 18][i % 17]   # accept the payload "77"
+    return ["1;255;0;0;17;2.2\n", "1;0;0;0;6;temp\n", f"1;0;1;0;{vt};77\n"]   # a new value type on child 0
 
 
 class Mutator:
@@ -292,7 +293,8 @@ class Scenario:
             ev = "io:" + fault[1]
         elif fault[0] == "mut":
             renamed = any(o[0] == "rename" and o[1] == os.path.basename(pu.tmp_name(self.main)) for o in shim.ops)
-            ev = ("mok" if renamed else "merr") if mut.fired else "ok"
+            changed = mut.fired and mut.before != pu.project_nodes(gw.sensors)
+            ev = ("mok" if renamed else "merr") if changed else "ok"
         else:
             ev = fault[0]
         self.model_events.append(ev)
